@@ -853,6 +853,29 @@ func (e *Env) call(n *SCall) SVal {
 			}
 		}
 		return SVal{t: mkAnd(cs...), gt: boolT}
+	case "kept":
+		// kept(locs...): in the given arrays, every object of the pre-state is untouched
+		if e.old == nil {
+			e.fail("kept needs a pre-state")
+		}
+		var cs []Term
+		for _, a := range n.Args {
+			for _, arr := range e.s.x.resolveLocs(e.pkg, []string{specText(a)}) {
+				if strings.HasPrefix(arr, "$") {
+					cs = append(cs, mkEq(e.ghostNow(arr), ghostIn(e.s, e.old.ghost, arr)))
+					continue
+				}
+				cur := heapGet(e.s, e.heap, arr, false)
+				old := heapGet(e.s, e.old.heap, arr, false)
+				if cur.S == old.S {
+					continue
+				}
+				e.s.x.counter++
+				r := fmt.Sprintf("r!k%d", e.s.x.counter)
+				cs = append(cs, Term{fmt.Sprintf("(forall ((%s Int)) (! (=> (and (< 0 %s) (<= %s %s)) (= (select %s %s) (select %s %s))) :pattern ((select %s %s)) :qid kept))", r, r, r, e.old.alloc.S, cur.S, r, old.S, r, cur.S, r), "Bool"})
+			}
+		}
+		return SVal{t: mkAnd(cs...), gt: boolT}
 	case "onlyAt":
 		// onlyAt(x, locs...): the given arrays changed at most at reference x
 		if e.old == nil {
